@@ -1,9 +1,15 @@
 //! Harness for the text group (C31-C34): rune names, unlock schedule, decimal amounts, text parsers.
 use hxlib::*;
 
+mod big;
+mod c32;
+mod c33;
+
 fn main() {
   let args = parse_args();
   match args.prop.as_str() {
+    "C32" => drive(&args, c32::gen, c32::run),
+    "C33" => drive(&args, c33::gen, c33::run),
     p => {
       eprintln!("unknown property {p}");
       std::process::exit(2);
